@@ -2,7 +2,9 @@
 
    _get_expectation, get_expectation_with_operator and get_expectation_with_bitstring_evaluator transcribed statement by
    statement over Q.  numpy.isclose(a, b) with its default rtol = 1e-5, atol = 1e-8 is the exact rational predicate
-   |a - b| <= atol + rtol * |b|.  A distribution is the list of (state, probability) pairs in the dictionary's iteration
+   |a - b| <= atol + rtol * |b|; isclose(a, b, atol=0) is |a - b| <= rtol * |b|.  /repo HEAD (fix 254e190) ends the
+   accumulation with the relative test only; the pre-fix behaviour (default isclose, whose absolute tolerance cuts off a
+   significant share of a small alpha tail) is the variant [atol_break = true] ([get_expectation_legacy]).  A distribution is the list of (state, probability) pairs in the dictionary's iteration
    order; a diagonal SparsePauliOp is a list of (coefficient, z-mask) terms, bit q of the mask set iff the Pauli acts
    with Z on qubit q; integer state s has qubit q = bit q of s; its bitstring key is written most significant bit first
    (binary_probabilities), so character i of an n-character key is qubit n-1-i.
@@ -19,6 +21,13 @@ Definition rtol : Q := 1 # 100000.
 Definition atol : Q := 1 # 100000000.
 (* numpy.isclose(a, b) *)
 Definition isclose (a b : Q) : bool := Qle_bool (Qabs (a - b)) (atol + rtol * Qabs b).
+
+(* numpy.isclose(a, b, atol=at) in general (for the translation tie: isclose_tol atol = isclose by computation,
+   isclose_tol 0 = isclose_rel by Cvar_proofs.isclose_tol_0) *)
+Definition isclose_tol (at' a b : Q) : bool := Qle_bool (Qabs (a - b)) (at' + rtol * Qabs b).
+
+(* numpy.isclose(a, b, atol=0) *)
+Definition isclose_rel (a b : Q) : bool := Qle_bool (Qabs (a - b)) (rtol * Qabs b).
 
 (* Python min(a, b): b if b < a else a *)
 Definition py_min2 (a b : Q) : Q := if Qltb b a then b else a.
@@ -39,22 +48,31 @@ Definition sort_by_value (l : list entry) : list entry := fold_right insert_by_v
         probability = min(alpha - gathered, probability)
         expectation += probability * value
         gathered += probability
-        if isclose(gathered, alpha): break                                        *)
-Fixpoint accumulate (alpha : Q) (l : list entry) (gathered expectation : Q) : Q :=
+        if isclose(gathered, alpha, atol=0): break        (before fix 254e190: isclose(gathered, alpha))   *)
+Definition break_test (atol_break : bool) (gathered alpha : Q) : bool :=
+  if atol_break then isclose gathered alpha else isclose_rel gathered alpha.
+
+Fixpoint accumulate_gen (atol_break : bool) (alpha : Q) (l : list entry) (gathered expectation : Q) : Q :=
   match l with
   | [] => expectation
   | (p, v) :: r =>
       let p' := py_min2 (alpha - gathered) p in
       let e' := expectation + p' * v in
       let g' := gathered + p' in
-      if isclose g' alpha then e' else accumulate alpha r g' e'
+      if break_test atol_break g' alpha then e' else accumulate_gen atol_break alpha r g' e'
   end.
 
 (* _get_expectation(state_list, alpha); the callers guarantee 0 < alpha <= 1 *)
-Definition get_expectation (l : list entry) (alpha : Q) : result Q :=
+Definition get_expectation_gen (atol_break : bool) (l : list entry) (alpha : Q) : result Q :=
   let l' := if isclose alpha 1 then l else sort_by_value l in
-  let e := accumulate alpha l' 0 0 in
+  let e := accumulate_gen atol_break alpha l' 0 0 in
   if Qeq_bool alpha 0 then Err "ZeroDivisionError" else Ok (e / alpha).
+
+(* /repo HEAD *)
+Definition accumulate : Q -> list entry -> Q -> Q -> Q := accumulate_gen false.
+Definition get_expectation : list entry -> Q -> result Q := get_expectation_gen false.
+(* before fix 254e190 *)
+Definition get_expectation_legacy : list entry -> Q -> result Q := get_expectation_gen true.
 
 (* ------------------------------------------------------------------------------------------------ diagonal operators *)
 Definition term := (Q * N)%type.
@@ -107,6 +125,14 @@ Definition state_of_bits (b : list bool) : N :=
    evaluate_bitstring raises BitstringEvaluatorException for a key of another length. *)
 Definition evaluate_bitstring (len : nat) (op : list term) (key : list bool) : result Q :=
   if Nat.eqb (length key) len then Ok (eval_diag op (state_of_bits key)) else Err "BitstringEvaluatorException".
+
+(* The width binary_probabilities() pads the keys to: the key length if the distribution was built from bitstring keys
+   ([Some n], what measure_quasi_distributions does), else the bit length of the largest integer key. *)
+Definition dist_num_bits (key_width : option nat) (d : dist) : nat :=
+  match key_width with
+  | Some n => n
+  | None => Nat.max 1 (N.to_nat (N.size (fold_left (fun m sp => N.max m (fst sp)) d 0%N))) (* len(bin(max)) - 2 *)
+  end.
 
 Definition expectation_with_bitstring (num_bits : nat) (d : dist) (len : nat) (op : list term) (alpha : Q) : result Q :=
   if negb (alpha_ok alpha) then Err "ValueError"
